@@ -139,11 +139,26 @@ def check_props(prop, thorough=False):
                     ok = False
                     res["log"] += "\nnon-allowed axiom %s under %s" % (a, name)
     if thorough:
-        with Lock():
-            rc2, out2 = sh("timeout 2400 coqchk -silent -o -Q . GS GS.Props.%s" % prop, cwd=COQ, timeout=2500)
-        res["coqchk"] = {"rc": rc2, "tail": out2[-1500:]}
-        if rc2 != 0:
-            ok = False
+        # independent re-check: the whole development is rebuilt from clean in a private copy (so
+        # that concurrent checks cannot disturb each other) and coqchk re-checks the compiled
+        # property file and everything it depends on, printing the axioms it relies on
+        import shutil
+        priv = os.path.join(BUILD, "clean_%s_%d" % (prop, os.getpid()))
+        shutil.rmtree(priv, ignore_errors=True)
+        try:
+            shutil.copytree(COQ, priv, ignore=shutil.ignore_patterns("*.vo", "*.vok", "*.vos", "*.glob", ".*.aux", "Makefile*",
+                                                                     ".Makefile.d", "model.ml*", ".lia.cache", ".nia.cache"))
+            rc1, out1 = sh("coq_makefile -f _CoqProject -o Makefile && timeout 3000 make -j16", cwd=priv, timeout=3100)
+            if rc1 != 0:
+                res["coqchk"] = {"rc": rc1, "tail": "clean rebuild failed: " + out1[-1500:]}
+                ok = False
+            else:
+                rc2, out2 = sh("timeout 2400 coqchk -silent -o -Q . GS GS.Props.%s" % prop, cwd=priv, timeout=2500)
+                res["coqchk"] = {"rc": rc2, "clean_rebuild": "ok", "tail": out2[-2500:]}
+                if rc2 != 0:
+                    ok = False
+        finally:
+            shutil.rmtree(priv, ignore_errors=True)
     res["ok"] = ok
     return res
 
